@@ -732,3 +732,41 @@ func FieldOf(v ssa.Value) *types.Var {
 	}
 	return nil
 }
+
+// Origin strips loads of single-assignment local variables: if v is a load
+// of an Alloc that is stored to exactly once in the function, the stored
+// value is returned (recursively); conversions that preserve identity are
+// stripped too.
+func Origin(v ssa.Value) ssa.Value {
+	for i := 0; i < 8; i++ {
+		switch x := v.(type) {
+		case *ssa.UnOp:
+			if x.Op != token.MUL {
+				return v
+			}
+			al, ok := x.X.(*ssa.Alloc)
+			if !ok {
+				return v
+			}
+			var stored ssa.Value
+			n := 0
+			for _, ref := range *al.Referrers() {
+				if st, ok := ref.(*ssa.Store); ok && st.Addr == al {
+					stored = st.Val
+					n++
+				}
+			}
+			if n != 1 {
+				return v
+			}
+			v = stored
+		case *ssa.ChangeType:
+			v = x.X
+		case *ssa.MakeInterface:
+			v = x.X
+		default:
+			return v
+		}
+	}
+	return v
+}
